@@ -197,6 +197,9 @@ def conditions(prop, tier):
                             'an unbounded amount and left in any of the 5 lexer states')]
     out.append(dict(name='C11.p_error', fn='p_error_cond', fixed=dict(v='zqv'), timeout=t,
                     bounds='p_error(None) and p_error(token) with token type by symbolic index over all token names and literals, unbounded symbolic line (the value only feeds the message text)'))
+    out.append(dict(name='C11.t_NUMBER', module='harness.c05_types', fn='num_token', fixed={}, timeout=t,
+                    bounds='real t_NUMBER action on a symbolic int in -(2^64+2)..2^64+2: numbers beyond 64 bits (either sign) are rejected with the '
+                           'located lexer error, everything else is tokenised with its value'))
     out.append(dict(name='C11.parse-wrapper', fn='parse_wrapper', fixed={}, timeout=t,
                     bounds='SmiV2Parser.parse with a scripted yacc object (5 outcomes), lexer line advanced by an unbounded amount, any lexer state'))
     for fam in range(6):
